@@ -925,3 +925,138 @@ Proof.
   pose proof (sim_script_all_return prefer sc (init c, [], []) 0%Z (quiet_init c 0%Z)) as H. cbn zeta in H.
   destruct (sim_script true prefer (init c, [], []) sc) as [[st tr] ob]. exact H.
 Qed.
+
+(* ====================== round 3: every scheduler instant satisfies the acceptor's clauses ====================== *)
+(* The acceptor (spec_check) judges each instant by: exact accounting of the grants, the bound, refusals
+   justified, pending callers justified.  Here the same clauses are proved of the model for every
+   instant the replay scheduler goes through, for ALL scripts and wake orders. *)
+
+Definition msum (h : metric) (l : list waiter) : metric := fold_left (fun a x => mplus a (ww x)) l h.
+
+Lemma msum_app h l1 l2 : msum h (l1 ++ l2) = msum (msum h l1) l2.
+Proof. unfold msum. apply fold_left_app. Qed.
+
+Lemma mle_mplus h w : mle h (mplus h w).
+Proof. unfold mle, mplus. cbn. lia. Qed.
+Lemma mle_trans a b c : mle a b -> mle b c -> mle a c.
+Proof. unfold mle. lia. Qed.
+Lemma mle_refl a : mle a a.
+Proof. unfold mle. lia. Qed.
+
+Lemma fitsb_false_mono h h' w c : mle h h' -> fitsb h w c = false -> fitsb h' w c = false.
+Proof. unfold mle, fitsb. lia. Qed.
+
+Lemma mplus_swap h a b : mplus (mplus h a) b = mplus (mplus h b) a.
+Proof. destruct h, a, b. unfold mplus. cbn. f_equal; lia. Qed.
+
+Lemma msum_perm l1 l2 : Permutation l1 l2 -> forall h, msum h l1 = msum h l2.
+Proof.
+  intros P. induction P; intros h; cbn; auto.
+  - apply IHP.
+  - unfold msum. cbn [fold_left]. now rewrite mplus_swap.
+  - now rewrite IHP1.
+Qed.
+
+(* what the drain of one instant at time [now] leaves behind *)
+Record drained (c : metric) (now : Z) (s s' : state) (kept granted refused : list waiter) : Prop := {
+  dr_woken : woken s' = [];
+  dr_waiting : waiting s' = waiting s ++ kept;
+  dr_cap : cap s' = cap s;
+  dr_perm : Permutation (kept ++ granted ++ refused) (woken s);
+  dr_held : held s' = msum (held s) granted;                       (* exact accounting, no wrap-around *)
+  dr_bound : mle (held s') c;
+  dr_refused : forall x, In x refused ->
+      fitsb (held s') (ww x) (cap s) = false /\ (exceedsb (ww x) (cap s) = true \/ (wdl x <= now)%Z);
+  dr_kept : forall x, In x kept ->
+      fitsb (held s') (ww x) (cap s) = false /\ exceedsb (ww x) (cap s) = false /\ (now < wdl x)%Z
+}.
+
+Lemma msum_mle h l : mle h (msum h l).
+Proof.
+  revert h. induction l as [|x l IH]; intros h; cbn; [apply mle_refl|].
+  eapply mle_trans; [apply mle_mplus | apply IH].
+Qed.
+
+Lemma drain_clauses c prefer now fuel : forall s,
+  inv c (fst (fst s)) -> (length (woken (fst (fst s))) <= fuel)%nat ->
+  let s' := drain true prefer fuel s now in
+  inv c (fst (fst s')) /\
+  exists kept granted refused, drained c now (fst (fst s)) (fst (fst s')) kept granted refused.
+Proof.
+  induction fuel as [|f IH]; intros s Hinv Hlen; cbn [drain].
+  - assert (E : woken (fst (fst s)) = []) by (destruct (woken (fst (fst s))); [reflexivity | cbn in Hlen; lia]).
+    split; [exact Hinv|]. exists [], [], []. constructor; cbn [app]; auto.
+    + now rewrite app_nil_r. + rewrite E. constructor. + destruct Hinv as (_ & H & _). exact H.
+    + intros x []. + intros x [].
+  - destruct (pick prefer (woken (fst (fst s)))) as [id|] eqn:P.
+    2:{ assert (E : woken (fst (fst s)) = []).
+        { unfold pick in P. destruct (find _ _); [discriminate|]. destruct (woken (fst (fst s))); [reflexivity | discriminate]. }
+        split; [exact Hinv|]. exists [], [], []. constructor; cbn [app]; auto.
+        + now rewrite app_nil_r. + rewrite E. constructor. + destruct Hinv as (_ & H & _). exact H.
+        + intros x []. + intros x []. }
+    destruct (pick_in _ _ _ P) as (x0 & Hx0 & Hid).
+    destruct s as [[st tr] ob]. cbn [fst] in *.
+    destruct (take_waiter id (woken st)) as [[y r]|] eqn:T.
+    2:{ exfalso. exact (take_waiter_none _ _ T x0 Hx0 Hid). }
+    destruct (take_waiter_some _ _ _ _ T) as (Hy1 & Hy2 & Hy3 & Hy4 & Hy5).
+    pose proof (take_waiter_perm _ _ _ _ T) as Hp.
+    pose proof (Permutation_length Hp) as Hl. cbn [length] in Hl.
+    (* the step *)
+    assert (Hinv0 : inv c (mkS (held st) (cap st) (waiting st) r)).
+    { eapply inv_sub; [exact Hinv | reflexivity | reflexivity |].
+      intros z Hz. apply in_pending_app in Hz. cbn [waiting woken] in Hz. apply in_pending_app. destruct Hz; auto. }
+    assert (Hwy : m_wf (ww y)) by (destruct Hinv as (_ & _ & _ & Hwf & _); apply Hwf, in_pending_app; auto).
+    pose proof (inv_step c st now (EWake id) Hinv I) as Hinv1.
+    unfold sim_step. cbn [step] in *. rewrite T in *.
+    rewrite (loop_body_decide c _ _ _ Hinv0 Hwy) in *. cbn [held cap waiting woken] in *.
+    unfold decide in *.
+    destruct (fitsb (held st) (ww y) (cap st)) eqn:Ef.
+    + (* granted *)
+      cbn [fst snd] in *.
+      set (st1 := mkS (mplus (held st) (ww y)) (cap st) (waiting st) r) in *.
+      specialize (IH (st1, (now, EWake id) :: tr, rev (flat_map (obs_of now) [ORet (wid y) true]) ++ ob)). cbn [fst] in IH.
+      destruct (IH Hinv1 ltac:(unfold st1; cbn; lia)) as (Hi' & kept & granted & refused & D). split; [exact Hi'|].
+      destruct D as [D1 D2 D3 D4 D5 D6 D7 D8]. unfold st1 in *. cbn [held cap waiting woken] in *.
+      exists kept, (y :: granted), refused. constructor; auto.
+      * eapply perm_trans; [|apply Permutation_sym, Hp].
+        eapply perm_trans; [apply Permutation_sym, Permutation_middle|]. apply perm_skip. exact D4.
+    + destruct (exceedsb (ww y) (cap st) || (wdl y <=? now)%Z) eqn:Ee.
+      * (* refused *)
+        cbn [fst snd] in *.
+        set (st1 := mkS (held st) (cap st) (waiting st) r) in *.
+        specialize (IH (st1, (now, EWake id) :: tr, rev (flat_map (obs_of now) [ORet (wid y) false]) ++ ob)). cbn [fst] in IH.
+        destruct (IH Hinv1 ltac:(unfold st1; cbn; lia)) as (Hi' & kept & granted & refused & D). split; [exact Hi'|].
+        destruct D as [D1 D2 D3 D4 D5 D6 D7 D8]. unfold st1 in *. cbn [held cap waiting woken] in *.
+        exists kept, granted, (y :: refused). constructor; auto.
+        -- eapply perm_trans; [|apply Permutation_sym, Hp].
+           rewrite app_assoc. eapply perm_trans; [apply Permutation_sym, Permutation_middle|]. apply perm_skip.
+           rewrite <- app_assoc. exact D4.
+        -- intros z [<-|Hz]; [|auto]. split.
+           ++ eapply fitsb_false_mono; [|exact Ef]. rewrite D5. apply msum_mle.
+           ++ apply orb_true_iff in Ee. destruct Ee as [Ee|Ee]; [left; exact Ee | right; lia].
+      * (* blocked again *)
+        cbn [fst snd] in *.
+        set (st1 := mkS (held st) (cap st) (waiting st ++ [y]) r) in *.
+        specialize (IH (st1, (now, EWake id) :: tr, rev (flat_map (obs_of now) [OBlock (wid y)]) ++ ob)). cbn [fst] in IH.
+        destruct (IH Hinv1 ltac:(unfold st1; cbn; lia)) as (Hi' & kept & granted & refused & D). split; [exact Hi'|].
+        destruct D as [D1 D2 D3 D4 D5 D6 D7 D8]. unfold st1 in *. cbn [held cap waiting woken] in *.
+        exists (y :: kept), granted, refused. constructor; auto.
+        -- rewrite D2, <- app_assoc. reflexivity.
+        -- cbn [app]. eapply perm_trans; [apply perm_skip, D4 | apply Permutation_sym, Hp].
+        -- apply orb_false_iff in Ee. destruct Ee as [Ee1 Ee2].
+           intros z [<-|Hz]; [|auto]. split; [|split; [exact Ee1 | lia]].
+           eapply fitsb_false_mono; [|exact Ef]. rewrite D5. apply msum_mle.
+Qed.
+
+(* one scheduler instant: a first event (scripted call or timer callback) and then everybody woken runs *)
+Lemma instant_clauses c prefer s now e0 :
+  inv c (fst (fst s)) -> ev_wf e0 ->
+  let s1 := sim_step true s now e0 in
+  let s' := drain_all true prefer s1 now in
+  inv c (fst (fst s')) /\
+  exists kept granted refused, drained c now (fst (fst s1)) (fst (fst s')) kept granted refused.
+Proof.
+  intros Hinv Hwf. cbn zeta. unfold drain_all. apply drain_clauses; [|apply le_n].
+  destruct s as [[st tr] ob]. unfold sim_step. cbn [fst].
+  pose proof (inv_step c st now e0 Hinv Hwf) as H. destruct (step true st now e0) as [st1 o]. exact H.
+Qed.
